@@ -645,7 +645,19 @@ def check_pipeline(ctx):
         # the visit is by a JaxtypingTransformer built with the loader's own checker
         vc = stages["visit"][0][1]
         recv = vc.func.value
-        if not (isinstance(recv, ast.Call) and norm(recv.func) == "JaxtypingTransformer" and any(k.arg == "typechecker" and norm(k.value) == f"{f.params[0]}._typechecker" for k in recv.keywords)):
+        if isinstance(recv, ast.Name):
+            # `transformer = JaxtypingTransformer(...)` ... `transformer.visit(tree)`
+            from . import c05
+
+            defs = c05._assignments_to(f, recv.id)
+            if len(defs) == 1 and defs[0][2] is None:
+                recv = defs[0][1]
+        if not (isinstance(recv, ast.Call) and norm(recv.func) == "JaxtypingTransformer"):
+            if isinstance(recv, ast.Call):
+                ctx.bad("C10.7", f, vc, f"the tree is visited by `{short(recv, 50)}`, not by JaxtypingTransformer(typechecker=self._typechecker)")
+            else:
+                raise AnalysisError(f"C10.7: cannot tell which transformer object `{short(vc, 50)}` is called on")
+        elif not any(k.arg == "typechecker" and norm(k.value) == f"{f.params[0]}._typechecker" for k in recv.keywords):
             ctx.bad("C10.7", f, vc, "the tree is not visited by JaxtypingTransformer(typechecker=self._typechecker)")
         # the compiled thing is the visited tree
     for st in ("parse", "compile"):
